@@ -105,3 +105,11 @@ Example cmap12_example :
   cmap12_take 10 groups None (cmap12_iter_new groups None) = Ok ([10;5; 11;6; 12;7; 13;22], true) /\
   cmap12_take 10 groups (Some (1114111, 7)) (cmap12_iter_new groups (Some (1114111, 7))) = Ok ([10;5; 11;6], true).
 Proof. cbv zeta. split; vm_compute; reflexivity. Qed.
+
+(* parse_bcd: "-1.5E-2" ; 31 digits then "E-" (the seeded C01/m4 input): InvalidNumber, not a panic ; 32 digits: accepted *)
+Example parse_bcd_examples :
+  snd (parse_bcd (cursor0 [225; 165; 194; 255])) = Ok [45; 49; 46; 53; 69; 45; 50] /\
+  snd (parse_bcd (cursor0 (repeat 17 15 ++ [28; 95]))) = Err InvalidNumber /\
+  (exists s, snd (parse_bcd (cursor0 (repeat 17 16 ++ [255]))) = Ok s /\ blen s = 32) /\
+  snd (parse_bcd (cursor0 [17; 17])) = Err OutOfBounds /\ snd (parse_bcd (cursor0 [209])) = Err InvalidNumber.
+Proof. split; [|split; [|split; [|split]]]; try (vm_compute; reflexivity). eexists. split; vm_compute; reflexivity. Qed.
